@@ -26,6 +26,8 @@ pub enum Flavour {
     ReadWritePair,
     /// `ProgressDrawTarget::stdout_with_hz` while stdout is /dev/null and stderr is a terminal (a pty)
     StdoutNotATtyStderrTty,
+    /// member of a visible MultiProgress that is then added to a hidden MultiProgress (at Op::Remove)
+    MovedToHiddenMulti,
     /// member of a hidden MultiProgress, removed, after which the MultiProgress is given a visible target
     RemovedFromHiddenMultiThenShown,
 }
@@ -170,7 +172,7 @@ impl Hist for C06 {
             v.retain(|o| !matches!(o, BOp::Inc(7) | BOp::Dec(1) | BOp::IncLen(_) | BOp::Style(_) | BOp::ResetEta | BOp::AbandonMsg(_) | BOp::FinishMsg(_) | BOp::UpdatePos(_) | BOp::Prefix(_)));
         }
         let mut out: Vec<Op> = v.into_iter().map(Op::B).collect();
-        if matches!(self.flavour, Flavour::RemovedFromHiddenMultiThenShown | Flavour::NotATtyMulti) && !prefix.iter().any(|o| matches!(o, Op::Remove)) {
+        if matches!(self.flavour, Flavour::RemovedFromHiddenMultiThenShown | Flavour::NotATtyMulti | Flavour::MovedToHiddenMulti) && !prefix.iter().any(|o| matches!(o, Op::Remove)) {
             out.insert(0, Op::Remove);
         }
         if matches!(self.flavour, Flavour::HiddenMulti | Flavour::NotATtyMulti) {
@@ -200,6 +202,7 @@ impl Hist for C06 {
         let spy = Spy::new(40, 30, false);
         let mut mp: Option<MultiProgress> = None;
         let mut pair_file: Option<std::fs::File> = None;
+        let mut hidden_mp: Option<MultiProgress> = None;
         let mut saved_fds = FdGuard(None);
         let mk = || ProgressBar::with_draw_target(Some(5), ProgressDrawTarget::hidden()).with_style(style(2)).with_finish(self.fin.real());
         let subject = match self.flavour {
@@ -248,6 +251,13 @@ impl Hist for C06 {
                 pty_drain();
                 ProgressBar::with_draw_target(Some(5), ProgressDrawTarget::stdout_with_hz(200)).with_style(style(2)).with_finish(self.fin.real())
             }
+            Flavour::MovedToHiddenMulti => {
+                let m = MultiProgress::with_draw_target(ProgressDrawTarget::term_like(spy.boxed()));
+                let b = m.add(mk());
+                mp = Some(m);
+                hidden_mp = Some(MultiProgress::with_draw_target(ProgressDrawTarget::hidden()));
+                b
+            }
             Flavour::RemovedFromHiddenMultiThenShown => {
                 let m = MultiProgress::with_draw_target(ProgressDrawTarget::hidden());
                 let b = m.add(mk());
@@ -264,6 +274,9 @@ impl Hist for C06 {
                 Op::B(b) => {
                     apply(&twin, b);
                     apply(&subject, b);
+                }
+                Op::Remove if self.flavour == Flavour::MovedToHiddenMulti => {
+                    let _ = hidden_mp.as_ref().unwrap().add(subject.clone());
                 }
                 Op::Remove => {
                     mp.as_ref().unwrap().remove(&subject);
@@ -291,7 +304,7 @@ impl Hist for C06 {
             if i + 1 == hist.len() {
                 // silence
                 let silent = match self.flavour {
-                    Flavour::RemovedFromMulti => removed_calls.map_or(true, |c| spy.calls() == c),
+                    Flavour::RemovedFromMulti | Flavour::MovedToHiddenMulti => removed_calls.map_or(true, |c| spy.calls() == c),
                     // hidden until the removal; whatever giving the MultiProgress a terminal does is
                     // not the bar's doing, every later call on the removed bar must be silent
                     Flavour::RemovedFromHiddenMultiThenShown => removed_calls.map_or(spy.calls() == 0, |c| spy.calls() == c),
@@ -322,7 +335,7 @@ impl Hist for C06 {
         drop(saved_fds);
         let g = catch(|| getters(&subject)).ok();
         let hidden_now = catch(|| subject.is_hidden()).unwrap_or(false);
-        let _ = catch(move || drop((twin, subject, mp)));
+        let _ = catch(move || drop((twin, subject, mp, hidden_mp)));
         if let Some((class, detail)) = last_err {
             return Verdict::Bad(Violation { class, config: self.config(), history: shown, detail });
         }
@@ -334,9 +347,9 @@ impl Hist for C06 {
 
 fn configs(tier: Tier) -> Vec<(C06, usize)> {
     let mut v = Vec::new();
-    let flavours = [Flavour::HiddenTarget, Flavour::NotATty, Flavour::HiddenMulti, Flavour::RemovedFromMulti, Flavour::NotATtyHz, Flavour::RemovedFromHiddenMultiThenShown, Flavour::NotATtyMulti, Flavour::ReadWritePair, Flavour::StdoutNotATtyStderrTty];
+    let flavours = [Flavour::HiddenTarget, Flavour::NotATty, Flavour::HiddenMulti, Flavour::RemovedFromMulti, Flavour::NotATtyHz, Flavour::RemovedFromHiddenMultiThenShown, Flavour::NotATtyMulti, Flavour::ReadWritePair, Flavour::StdoutNotATtyStderrTty, Flavour::MovedToHiddenMulti];
     for (k, &flavour) in flavours.iter().enumerate() {
-        let fin = [Fin::AndLeave, Fin::WithMessage, Fin::AndClear, Fin::AbandonWithMessage, Fin::Abandon, Fin::AndLeave, Fin::WithMessage, Fin::AndClear, Fin::AndLeave][k];
+        let fin = [Fin::AndLeave, Fin::WithMessage, Fin::AndClear, Fin::AbandonWithMessage, Fin::Abandon, Fin::AndLeave, Fin::WithMessage, Fin::AndClear, Fin::AndLeave, Fin::Abandon][k];
         match tier {
             Tier::Quick => {
                 v.push((C06 { flavour, fin, reduced: false }, if flavour == Flavour::RemovedFromMulti { 3 } else { 2 }));
@@ -360,7 +373,7 @@ pub fn run(tier: Tier, shard: Shard, stats: &mut Stats) {
 pub fn meta(tier: Tier) -> Meta {
     Meta {
         level: "model_checking",
-        rule: "stateless DFS over all single-bar histories (26-operation alphabet incl. println, suspend, set_tab_width, length changes, every finish variant, positions beyond the length) to the stated depth, each executed in lock-step on a visible twin and on a hidden subject: ProgressDrawTarget::hidden(), ProgressBar::new with fd 2 redirected to a file (not a TTY), stderr_with_hz on the same, a console::Term made of a read/write pair of files, stdout_with_hz while stdout is /dev/null and stderr is a pseudo terminal, member of a hidden MultiProgress, a member of a visible MultiProgress removed at every possible point of the history, and a member of a hidden MultiProgress removed at every point after which the MultiProgress is given a visible target; oracle: zero terminal calls (spy call counter incl. width/height; redirected file stays empty) and getters equal to the twin's after every operation; non-trivial = history contains more than ticks".into(),
+        rule: "stateless DFS over all single-bar histories (26-operation alphabet incl. println, suspend, set_tab_width, length changes, every finish variant, positions beyond the length) to the stated depth, each executed in lock-step on a visible twin and on a hidden subject: ProgressDrawTarget::hidden(), ProgressBar::new with fd 2 redirected to a file (not a TTY), stderr_with_hz on the same, a member of a visible MultiProgress handed to a hidden one, a console::Term made of a read/write pair of files, stdout_with_hz while stdout is /dev/null and stderr is a pseudo terminal, member of a hidden MultiProgress, a member of a visible MultiProgress removed at every possible point of the history, and a member of a hidden MultiProgress removed at every point after which the MultiProgress is given a visible target; oracle: zero terminal calls (spy call counter incl. width/height; redirected file stays empty) and getters equal to the twin's after every operation; non-trivial = history contains more than ticks".into(),
         assumptions: vec!["fd 2 of the shard process is redirected to an unlinked file for the whole run".into()],
         bounds: json!({"configurations": configs(tier).iter().map(|(c, d)| json!({"config": c.config(), "reduced_alphabet": c.reduced, "depth": d})).collect::<Vec<_>>()}),
         exhaustive: true,
